@@ -301,6 +301,12 @@ def edits(text, toks, rng, n_insert):
             c, d = spans[i + 1]
             out.append(('swap', text[:a] + text[c:d] + text[b:c] + text[a:b] + text[d:]))
     pool = ['.', ',', ')', '(', ':-', ';', '->', '|', ']', '[', 'foo', 'X', '1', "'", '$', '#', '\\', '"', '?', '{', 'é', "'abc", '%x', '!']
+    # changes confined to the ends of the text (a final line break is what ends a comment; these characters are not in the lexicon)
+    out.append(('rstrip', text.rstrip()))
+    out.append(('strip', text.strip()))
+    for ch_ in ('\x0c', '\xa0', '\u2028', '\x85', '\x1c'):
+        out.append(('append-char', text + ch_))
+        out.append(('prepend-char', ch_ + text))
     for _ in range(n_insert):
         if spans:
             pos = rng.choice([0, len(text)] + [a for a, b in spans] + [b for a, b in spans])
